@@ -114,7 +114,9 @@ class Result:
         known-finding matching; `case` must be replayable by the sub-check."""
         self.n_violations += 1
         self.stats["viol:" + clause] += 1
-        if len(self.violations) < MAX_VIOL_PER_SHARD:
+        # the cap is per signature, so that a frequent (e.g. known) signature can never crowd out a different one
+        self.stats["_sig:" + signature] += 1
+        if self.stats["_sig:" + signature] <= 2 and len(self.violations) < MAX_VIOL_PER_SHARD * 25:
             self.violations.append(
                 {"clause": clause, "case": case, "detail": detail, "signature": signature}
             )
